@@ -21,6 +21,7 @@ import (
 //	     with and without blocks of templates and of wrap()/ignore()/templ.Raw/c0, the children slot);
 //	(ii) exec of those statements = denote of the fragment tree (the theorem, re-checked on the extracted code)
 //	     = the bytes / error position the COMPILED generated code produces = spec/Denote.v's denote_case.
+//
 // fragSrc: one generated file of the fragment pipeline and how it is treated.
 type fragSrc struct {
 	prefix, src string
